@@ -85,11 +85,19 @@ def run(ck):
 
         # ---- databases interrogate produces ------------------------------------------------------
         n_hdr = 6 if quick else 120
-        for n in range(n_hdr):
-            h = hdrgen.gen_header(rng, n_classes=rng.randrange(1, 5))
+        from props.c03 import collision_family
+        for n in range(n_hdr + 3):
             hp = wd / ("g%d.h" % n)
-            hp.write_text(h.text())
+            if n >= n_hdr:
+                # functions whose signature hashes collide: the names in the database must still be the names the code defines
+                fam = collision_family(rng, [2, 3, 6][n - n_hdr])
+                hp.write_text("__begin_publish\n" + "".join("int %s(int a);\n" % x for x in fam) + "__end_publish\n")
+            else:
+                h = hdrgen.gen_header(rng, n_classes=rng.randrange(1, 5))
+                hp.write_text(h.text())
             optsets = rng.sample(OPTION_SETS, 3) if quick else OPTION_SETS
+            if n >= n_hdr:
+                optsets = [["-c", "-fnames"], ["-python", "-fnames"]]
             for oi, opts in enumerate(optsets):
                 stem = "g%d_%d" % (n, oi)
                 rc, oc, od, err_ = interrogate(bdir, wd, hp, opts, stem)
